@@ -420,17 +420,17 @@ func (i *introspectionVisitor) TypeRef(typeRef int) TypeRef {
 		}
 		var typeKind __TypeKind
 		switch node.Kind {
-		case ast.NodeKindScalarTypeDefinition:
+		case ast.NodeKindScalarTypeDefinition, ast.NodeKindScalarTypeExtension:
 			typeKind = SCALAR
-		case ast.NodeKindObjectTypeDefinition:
+		case ast.NodeKindObjectTypeDefinition, ast.NodeKindObjectTypeExtension:
 			typeKind = OBJECT
-		case ast.NodeKindEnumTypeDefinition:
+		case ast.NodeKindEnumTypeDefinition, ast.NodeKindEnumTypeExtension:
 			typeKind = ENUM
-		case ast.NodeKindInterfaceTypeDefinition:
+		case ast.NodeKindInterfaceTypeDefinition, ast.NodeKindInterfaceTypeExtension:
 			typeKind = INTERFACE
-		case ast.NodeKindUnionTypeDefinition:
+		case ast.NodeKindUnionTypeDefinition, ast.NodeKindUnionTypeExtension:
 			typeKind = UNION
-		case ast.NodeKindInputObjectTypeDefinition:
+		case ast.NodeKindInputObjectTypeDefinition, ast.NodeKindInputObjectTypeExtension:
 			typeKind = INPUTOBJECT
 		}
 		nameStr := unsafebytes.BytesToString(name)
